@@ -593,6 +593,16 @@ PROPERTIES["C14"] = {
           "DirectInprocConnection::{send_multipart, send_multipart_owned} (the inproc transport's connection: the pipe is the peer socket's ingress queue) on a full queue of capacity 1 - the same obligations; clean_endpoint_uri() (text of a monitor event) stubbed, no monitor attached",
           budget={"quick": 300, "thorough": 400},
           required_covers=["c14.sca-send.wouldblock", "c14.sca-send.completed-after-wait", "c14.sca-send.still-waiting", "c14.sca-send.timed-out"]),
+        M("c14_session_buffering_bound_carryover", "d_c01", "carryover_branch",
+          {"quick": "buffering clause, session side (region mode inside SessionConnectionActorX::run_loop, the carry-over branch up to the hand-over of the batch): both write modes; in buffered-write mode the number of framed messages still pending in the EgressBuffer is symbolic (< SNDHWM, the branch's gate); SNDHWM 1..8, SNDBATCH_COUNT 1..8, byte limits and all message sizes symbolic; 1..3 messages in the carry-over (assumed fewer than SNDBATCH_COUNT: induction hypothesis), 0..3 in the pipe",
+           "thorough": "1..4 in the carry-over, 0..4 in the pipe"},
+          params={"quick": {"max_carry": 3, "max_pipe": 3, "hwm_bound": True}, "thorough": {"max_carry": 4, "max_pipe": 4, "hwm_bound": True}}, budget={"quick": 600, "thorough": 3000},
+          required_covers=["c14.buffer.budget-limited-by-hwm", "c14.buffer.carry-over-from-pipe-overflow"]),
+        M("c14_session_buffering_bound_first_batch", "d_c01", "first_batch_path",
+          {"quick": "the same for the other place that pulls from the socket's pipe (the select! arm that received a message from the socket core; carry-over empty by its guard): 0..3 further messages in the pipe",
+           "thorough": "0..4 further messages in the pipe"},
+          params={"quick": {"max_pipe": 3, "hwm_bound": True}, "thorough": {"max_pipe": 4, "hwm_bound": True}}, budget={"quick": 600, "thorough": 3000},
+          required_covers=["c14.buffer.budget-limited-by-hwm", "c14.buffer.carry-over-from-pipe-overflow"]),
         M("c14_ingress_recv_timeouts", "d_c14", "ingress_recv_timeouts",
           "AnonymousIngressEngine::{recv, recv_multipart} (PULL/SUB receive path, nested ReadyPipeQueue::pop coroutine) on an empty queue; RCVTIMEO in {-1, 0, any positive value (symbolic)}; same timer object; then: a 2-frame message arrives / still empty / timer elapsed, and a message arriving after a refused or timed-out call is read back",
           budget={"quick": 300, "thorough": 400},
@@ -604,11 +614,11 @@ PROPERTIES["C14"] = {
     "manifest": {
         "engine": "mirsym",
         "technique": "symbolic execution (mirsym, z3) of the connection interface's and the ingress engine's coroutine MIR with a symbolic timeout option and a recording timer object",
-        "text": "Kernels of the timeout clause. On a full pipe the tokio session's connection interface fails at once with a would-block error for SNDTIMEO=0 (message handed back / not enqueued, no timer), arms a timer of exactly SNDTIMEO for every positive value and fails with Timeout/ResourceLimitReached only when it has elapsed (message not enqueued), arms NO timer for SNDTIMEO=-1 (waits until there is room), and completes with the message enqueued exactly once when room appears. On an empty queue PULL/SUB recv()/recv_multipart() do the same for RCVTIMEO and never lose a message that arrives after a refused or timed-out call.",
+        "text": "Kernels of the timeout clause. On a full pipe the tokio session's connection interface fails at once with a would-block error for SNDTIMEO=0 (message handed back / not enqueued, no timer), arms a timer of exactly SNDTIMEO for every positive value and fails with Timeout/ResourceLimitReached only when it has elapsed (message not enqueued), arms NO timer for SNDTIMEO=-1 (waits until there is room), and completes with the message enqueued exactly once when room appears. On an empty queue PULL/SUB recv()/recv_multipart() do the same for RCVTIMEO and never lose a message that arrives after a refused or timed-out call. The inproc transport's connection meets the same send obligations. Kernel of the buffering clause: a session never frames more messages than SNDHWM leaves room for (framed-and-pending + new batch <= SNDHWM in buffered-write mode), a batch never exceeds SNDBATCH_COUNT, and the carry-over between cycles stays below SNDBATCH_COUNT (inductive step over both places that pull from the socket's pipe) - so one connection buffers at most SNDHWM messages in the socket-to-session pipe, SNDHWM framed in the session, and fewer than SNDBATCH_COUNT in the carry-over.",
         "design_ref": "DESIGN.md §5 (C14)",
-        "note": "NOT claimed: the high-water-mark bound on buffered messages, the socket-level wrappers (PUSH's tokio timeout around routing, DEALER pending queue, ROUTER send permits), addressed ingress (REQ/REP/ROUTER/DEALER recv), the io_uring connection (same 30 s fallback pattern seen by reading in io_uring_backend/zmtp_handler.rs; not in the default-feature MIR, not decided, not changed), wall-clock accuracy of tokio timers.",
+        "note": "NOT claimed: the receive-side bound (RCVHWM, ingress queues), the vectored-write mode's pending_vectored queue (gated to one batch by its own guard; the guard is part of the region only for the carry-over branch), the socket-level wrappers (PUSH's tokio timeout around routing, DEALER pending queue, ROUTER send permits), addressed ingress (REQ/REP/ROUTER/DEALER recv), wall-clock accuracy of tokio timers. The io_uring connection's send timeouts are C20's kernel.",
     },
-    "outside": "HWM bound, socket-level wrappers, addressed ingress, io_uring connection, timer accuracy",
+    "outside": "receive-side HWM bound, socket-level wrappers, addressed ingress, timer accuracy",
 }
 
 PROPERTIES["C15"] = {
